@@ -117,6 +117,9 @@ func Serve(h http.Handler, calls *int, req Req, preset map[string][]string) Resp
 	}
 	res := Resp{Status: st, Hdr: map[string][]string{}, Body: string(rec.Body)}
 	for k, v := range rec.H {
+		if len(v) == 0 {
+			continue // a key with zero values produces no field line on the wire
+		}
 		res.Hdr[k] = append([]string(nil), v...)
 	}
 	if calls != nil {
